@@ -1,12 +1,15 @@
 """C17 - Spike selection honours its cluster, chunk, subset and count constraints."""
+import os
+import shutil
+
 import numpy as np
 
-from vmon.core import call, hkey
+from vmon.core import call, hkey, scratch_dir
 
 ID = 'C17'
 LEVEL = 'exploration'
 MONITORS = ('M2', 'M6')
-ANCHORS = ['phylib.io.array:SpikeSelector.__init__', 'phylib.io.array:_times_in_chunks',
+ANCHORS = ['phylib.io.model:TemplateModel.save_spikes_subset_waveforms', 'phylib.io.array:SpikeSelector.__init__', 'phylib.io.array:_times_in_chunks',
            'phylib.io.array:SpikeSelector.__call__', 'phylib.io.array:_flatten_per_cluster']
 RULE = ('Each case: random spike times (many exactly on chunk bounds) and cluster labels, a chunk grid of '
         '2..9 bounds (also not starting at 0; integer or fractional float bounds with int32/int64/uint64/float32/float64 times), n_chunks_kept in 1..m+1, requested count in {None,0,1,3,100}, '
@@ -15,12 +18,12 @@ RULE = ('Each case: random spike times (many exactly on chunk bounds) and cluste
         'constraint checker whose eligibility is computed by loops from the definition b_i <= t < '
         'b_{i+1}. chunks_kept is checked against the grid (whole intervals, constant stride from the '
         'first, at most the requested number). non-trivial = distinct cases with a spike on a bound and a '
-        'stride that does not divide the chunk count, or with a count smaller than an eligible group.')
+        'stride that does not divide the chunk count, or with a count smaller than an eligible group. Histories on one selector: a second, different query; a query after two spikes swapped clusters behind the callback (cluster sizes unchanged). Subsets are also given with repeated ids and unsorted. Model route: TemplateModel.save_spikes_subset_waveforms on generated datasets whose recordings span 8-60 chunks (1-3 files); the saved spike ids are judged against the 20 kept chunks of the reader\'s grid and the per-template count.')
 EXHAUSTIVE = {'quick': False, 'thorough': False}
 FLOORS = {'quick': {'evaluations': 60000, 'distinct_nontrivial': 3000,
-                    'monitors': {'M2._flatten_per_cluster.checked': 10000}},
+                    'monitors': {'M2._flatten_per_cluster.checked': 10000, 'model_subset_judged': 30}},
           'thorough': {'evaluations': 1000000, 'distinct_nontrivial': 50000,
-                       'monitors': {'M2._flatten_per_cluster.checked': 500000}}}
+                       'monitors': {'M2._flatten_per_cluster.checked': 500000, 'model_subset_judged': 300}}}
 NSHARDS = 16
 
 
@@ -32,6 +35,8 @@ def plan(tier, seed):
 def run_shard(desc, ctx):
     for i in range(desc['cases']):
         run_case({'seed': [desc['seed'], desc['shard'], i]}, ctx)
+    for i in range(max(3, desc['cases'] // 400)):
+        run_case({'kind': 'model', 'seed': [desc['seed'], desc['shard'], i, 17]}, ctx)
 
 
 def gen(seed):
@@ -60,10 +65,80 @@ def gen(seed):
     subset_spikes = None
     if rng.random() < 0.4:
         subset_spikes = np.sort(rng.permutation(n)[:int(rng.integers(0, n + 1))]).astype(np.int64)
+        if rng.random() < 0.4 and subset_spikes.size:
+            # a subset given as the concatenation of overlapping id lists: repeated ids, not sorted
+            subset_spikes = np.r_[subset_spikes, rng.choice(subset_spikes, size=int(rng.integers(1, 4)))]
+            if rng.random() < 0.5:
+                subset_spikes = rng.permutation(subset_spikes)
     return bounds, t, clusters, kept, count, req, subset_chunks, subset_spikes
 
 
+def _model_case(case, ctx):
+    """The use of the selector by TemplateModel.save_spikes_subset_waveforms (20 kept chunks): recordings of 8-60
+    chunks, judged on the spike ids the model saves."""
+    from phylib.io.model import load_model
+    from gen.dataset import random_spec
+    rng = np.random.default_rng(case['seed'])
+    rate = [0.05, 0.1, 0.025][int(rng.integers(0, 3))]          # 600 s chunks of 30 / 60 / 15 samples
+    clen = int(round(600 * rate))
+    n_chunks = int(rng.integers(8, 61))
+    n_samples = clen * n_chunks - int(rng.integers(0, clen))
+    opts = dict(nc=int(rng.integers(3, 7)), nt=int(rng.integers(2, 6)), ns=int(rng.integers(40, 400)), rate=rate,
+                raw=['int16', 'float32'][int(rng.integers(0, 2))], raw_parts=int(rng.choice([1, 1, 2, 3])),
+                n_samples=n_samples, ncdat_extra=0, features='none', clusters=['same', 'curated'][int(rng.integers(0, 2))])
+    spec = random_spec(rng, **opts)
+    k = int(rng.choice([1, 2, 5, 1000]))
+    desc = {'kind': 'model', 'seed': case['seed'], 'opts': opts, 'max_n_spikes_per_template': k}
+    d = scratch_dir('c17_')
+    try:
+        r = call(load_model, spec.write(d))
+        if not r.ok:
+            ctx.violation('raised', desc, 'load_model raised %r' % r.exc, {'route': 'model'}, tb=r.tb)
+            return
+        m = r.value
+        try:
+            bounds = [int(b) for b in np.asarray(m.traces.chunk_bounds).tolist()]
+            grid = list(zip(bounds[:-1], bounds[1:]))
+            stride = max(1, -(-len(grid) // 20))
+            kept = grid[::stride]
+            r = call(m.save_spikes_subset_waveforms, max_n_spikes_per_template=k, max_n_channels=2)
+            if not r.ok:
+                ctx.violation('raised', desc, 'save_spikes_subset_waveforms raised %r' % r.exc, {'route': 'model'}, tb=r.tb)
+                return
+            ids = np.load(os.path.join(d, '_phy_spikes_subset.spikes.npy'))
+            samples = spec.spike_samples.astype(np.int64)
+            st = spec.spike_templates.astype(np.int64)
+            ctx.count(1, key=hkey('model', tuple(case['seed'])), nontrivial=len(grid) > 20,
+                      cell=('model', 'chunks_gt20' if len(grid) > 20 else 'chunks_le20', 'parts%d' % opts['raw_parts']))
+            ctx.mon('model_subset_judged')
+            msg = None
+            if ids.ndim != 1 or (ids.size > 1 and (np.diff(ids) <= 0).any()):
+                msg = 'saved spike ids are not strictly increasing'
+            else:
+                elig = [i for i in range(len(samples)) if any(a <= samples[i] < b for a, b in kept)]
+                out = ids.tolist()
+                extra = [i for i in out if i not in set(elig)]
+                if extra:
+                    msg = '%d saved spikes (e.g. %r at samples %r) lie outside the kept chunks %r...' % (
+                        len(extra), extra[:5], samples[extra[:5]].tolist(), kept[:4])
+                else:
+                    for t_ in np.unique(st):
+                        e = [i for i in elig if st[i] == t_]
+                        got = [i for i in out if st[i] == t_]
+                        if (len(e) <= k and got != e) or (len(e) > k and len(got) != k):
+                            msg = 'template %d: %d eligible spikes, count %d, %d saved' % (t_, len(e), k, len(got))
+                            break
+            if msg:
+                ctx.violation('bad_selection', dict(desc, chunk_bounds=bounds), msg, {'route': 'model', 'gt20': len(grid) > 20})
+        finally:
+            call(m.close)
+    finally:
+        shutil.rmtree(d, ignore_errors=True)
+
+
 def run_case(case, ctx):
+    if case.get('kind') == 'model':
+        return _model_case(case, ctx)
     from phylib.io.array import SpikeSelector, _spikes_in_clusters
     bounds, t, clusters, kept, count, req, subset_chunks, subset_spikes = gen(case['seed'])
     m = len(bounds) - 1
@@ -175,6 +250,31 @@ def run_case(case, ctx):
             msg = 'second query: output %r not increasing / outside the requested clusters' % out[:20]
         if msg:
             ctx.violation('bad_selection', desc, msg, dict(feats, second_query=True))
-    if any(not np.array_equal(spc[c], spc0[c]) for c in spc):
+    unchanged_inputs = all(np.array_equal(spc[c], spc0[c]) for c in spc)
+    # history: the clustering behind the callback changes (two spikes of different clusters swap labels, so every
+    # cluster keeps its size); the same selector must answer for the clustering as it is NOW
+    present = sorted(set(clusters.tolist()))
+    if len(present) >= 2:
+        call(sel, None, present, subset_chunks=True)        # (fills whatever the selector might remember)
+        i1 = int(np.nonzero(clusters == present[0])[0][0])
+        i2 = int(np.nonzero(clusters == present[1])[0][-1])
+        clusters3 = clusters.copy()
+        clusters3[i1], clusters3[i2] = clusters[i2], clusters[i1]
+        new = {int(c): _spikes_in_clusters(clusters3, [c]) for c in np.unique(clusters3)}
+        spc.clear()
+        spc.update(new)
+        ctx.count(1, cell=('query_after_reassignment',))
+        for sc3 in (True, False):
+            rr = call(sel, None, present[:1], subset_chunks=sc3)
+            if not rr.ok:
+                ctx.violation('raised', desc, 'query after a reassignment raised %r' % rr.exc, dict(feats, after_reassignment=True), tb=rr.tb)
+                break
+            e = [i for i in range(len(t)) if clusters3[i] == present[0] and (not sc3 or in_kept(t[i]))]
+            if np.asarray(rr.value).tolist() != e:
+                ctx.violation('bad_selection', dict(desc, swapped=[i1, i2]), 'after spikes %d and %d swapped clusters: selector returned %r, '
+                              'eligible now %r (subset_chunks=%r)' % (i1, i2, np.asarray(rr.value).tolist()[:20], e[:20], sc3),
+                              dict(feats, after_reassignment=True))
+                break
+    if not unchanged_inputs:
         ctx.violation('inputs_modified', desc, 'the selector altered the per-cluster spike arrays of the caller', feats)
     ctx.sample({k: desc[k] for k in ('bounds', 'times', 'n_chunks_kept', 'count', 'requested', 'subset_chunks')}, every=701)
